@@ -16,6 +16,9 @@ for d in sorted(glob.glob(os.path.join(HERE, "seeded", "*"))):
             return "-"
         p = r.get(m["property"], [])
         ok = det.get(tier + "_caught")
+        by = det.get(tier + "_caught_by")
+        if ok and by and m["property"] not in by:
+            return "caught by " + ", ".join(by)
         cl = sorted(set(c for h in p for c in h.get("classes", [])))[:2]
         return ("caught" if ok else "MISSED") + (" (" + ", ".join(cl) + ")" if cl else "")
     extra = m.get("note", "")
